@@ -445,7 +445,8 @@ def assemble_fragment(text, fname, repo, stats, srcs):
             continue
         it.drift = True
         sm = difflib.SequenceMatcher(None, at, bt, autojunk=False)
-        for op, i1, i2, j1, j2 in sm.get_opcodes():
+        opcodes = widen_over_rewrites(sm.get_opcodes(), a, at, report, it)
+        for op, i1, i2, j1, j2 in opcodes:
             if op == "equal": continue
             new = " ".join(render_src(b[j1:j2]))
             if op == "delete":
@@ -497,6 +498,64 @@ def assemble_fragment(text, fname, repo, stats, srcs):
     for (s, e, r) in sorted(edits, key=lambda x: (x[0], x[1]), reverse=True):
         out = out[:s] + r + out[e:]
     return out, items, report
+
+def widen_over_rewrites(opcodes, a, at, report, it):
+    """A repository change that cuts into a rewritten (R) region is widened to cover the whole region: the rewrite is then
+    dropped and the repository's own text is used in its place.  If that text is outside the verifier's subset the unit does
+    not compile (exit 2, as before); if it is inside, the change is verified instead of being a conflict."""
+    ops = [list(o) for o in opcodes]
+    def rotate_ok(op, i1, i2):
+        # pure deletions may be slid (handled by the caller); do not widen those that can be slid off the region
+        return False
+    changed = True
+    guard = 0
+    while changed and guard < 50:
+        changed = False; guard += 1
+        for idx, (op, i1, i2, j1, j2) in enumerate(ops):
+            if op == "equal": continue
+            regs = set(t.region for t in a[i1:i2] if t.region is not None)
+            if op == "insert" and 0 < i1 < len(a) and a[i1 - 1].region is not None and a[i1].region == a[i1 - 1].region:
+                regs.add(a[i1].region)
+            for reg in regs:
+                idxs = [q for q, t in enumerate(a) if t.region == reg]
+                R1, R2 = idxs[0], idxs[-1] + 1
+                if i1 <= R1 and R2 <= i2: continue      # whole region inside: fine
+                if op == "delete":
+                    # try the rotations first (see the caller)
+                    n_ = i2 - i1; ok = False
+                    for k_ in range(1, n_ + 1):
+                        for (x1, x2) in ((i1 - k_, i2 - k_), (i1 + k_, i2 + k_)):
+                            if x1 < 0 or x2 > len(at): continue
+                            same = at[x1:i1] == at[x2:i2] if x1 < i1 else at[i1:x1] == at[i2:x2]
+                            if same and not any(t.region == reg for t in a[x1:x2] ) or (same and x1 <= R1 and R2 <= x2):
+                                ok = True
+                    if ok: continue
+                A1, A2 = min(i1, R1), max(i2, R2)
+                # widen over every opcode that intersects [A1, A2)
+                lo = idx
+                while lo > 0 and ops[lo][1] > A1: lo -= 1
+                hi = idx
+                while hi + 1 < len(ops) and ops[hi][2] < A2: hi += 1
+                first, last = ops[lo], ops[hi]
+                pre = post = None
+                B1, B2 = first[3], last[4]
+                if first[0] == "equal" and first[1] < A1:
+                    cut = A1 - first[1]
+                    pre = ["equal", first[1], A1, first[3], first[3] + cut]; B1 = first[3] + cut
+                else:
+                    A1 = first[1]
+                if last[0] == "equal" and last[2] > A2:
+                    cut = A2 - last[1]
+                    post = ["equal", A2, last[2], last[3] + cut, last[4]]; B2 = last[3] + cut
+                else:
+                    A2 = last[2]
+                merged = ["replace", A1, A2, B1, B2]
+                ops[lo:hi + 1] = [o for o in (pre, merged, post) if o is not None]
+                report.append((it, "rewrite-dropped", "%s region: repository text used instead" % reg[2], " ".join(at[A1:A2])[:200]))
+                changed = True
+                break
+            if changed: break
+    return [tuple(o) for o in ops]
 
 def render_src(toks):
     """Render normalised source tokens as text (N4 groups were synthesised as tokens)."""
